@@ -284,6 +284,7 @@ def run(ix, R):
                                      CF + '::ClassFactory._collect_classes'], 'class construction path')
     # ---- 6. typing
     site = PP + '::ParameterParser.transform'
+    words = None
     with R.guard('6.transform', 'ALG', site, 'typing'):
         f = ix.func(site)
         from sa.helpers import need
@@ -318,6 +319,56 @@ elif isinstance(V_val, str):
             then = fmt(fl6, at.args[1])
             words[lits] = [True if then == 'True' else False if then == 'False' else then]
         why = []
+        if not any('true' in k for k in words) or not any('false' in k for k in words):
+            R.error('6.bool', 'ALG', site, "the tests `<value>.lower() in <literal words>` with 'true' and with 'false' are found",
+                    'word sets found: %s' % sorted(sorted(k) for k in words), loc=f.loc())
+            words = None
+    with R.guard('6.transform.kinds', 'ALG', site, 'typing by kind of value'):
+        # by kind of raw value (the decision tree may be nested or split over helpers in any way):
+        #   a list        -> the list of its entries converted with float (all or nothing: the unconverted list otherwise)
+        #   a string that is no boolean word -> float(value) (the string itself when that fails)
+        from sa.helpers import resolve_guards, has_guard
+        f = ix.func(site)
+        flk = mkflow(ix, site, keep_casts=True)
+        ps = f.params()
+        pe = param_env(flk, f, ['sec', 'key'])
+        val = spec(flk, 'sec[key]', pe)
+        rv = the_return(flk).value
+        is_list = spec(flk, 'isinstance(v, list)', {'v': val})
+        is_str = spec(flk, 'isinstance(v, str)', {'v': val})
+
+        def kind(scen):
+            def decide(c):
+                if flk.tab.equal(c, is_list):
+                    return scen == 'list'
+                if flk.tab.equal(c, is_str):
+                    return scen == 'str'
+                ca = atom_of(flk, c)
+                if scen == 'str' and ca is not None and ca.head == 'cmp' and ca.extra and ca.extra[0] == 'In' and \
+                        'lower' in fmt(flk, ca.args[0]):
+                    return False        # not a boolean word
+                return None
+            return resolve_guards(flk, rv, decide)
+        why_k = []
+        got = kind('list')
+        ga_ = atom_of(flk, got)
+        if ga_ is None or ga_.head == 'guard' or (ga_.head != 'comp' and has_guard(got)):
+            raise AnalysisError('what a list becomes is not settled: %s' % fmt(flk, got)[:200])
+        if not (flk.tab.equal(got, spec(flk, 'list(map(float, v))', {'v': val})) or flk.tab.equal(got, val)):
+            why_k.append('a list value becomes %s (expected: its entries converted with float, all or nothing)' % fmt(flk, got)[:200])
+        got = kind('str')
+        if has_guard(got):
+            raise AnalysisError('what a plain string becomes is not settled: %s' % fmt(flk, got)[:200])
+        if not flk.tab.equal(got, spec(flk, 'float(v)', {'v': val})):
+            why_k.append('a string that is no boolean word becomes %s (expected float(value), the string when that fails)' % fmt(flk, got)[:200])
+        st_ = [e for e in flk.of('store') if flk.tab.equal(e.target, val)]
+        if not st_ or not all(flk.tab.equal(e.value, rv) for e in st_[-1:]):
+            raise AnalysisError('the typed value is not what is stored back')
+        R.check('6.transform.kinds', 'ALG', site,
+                'typing by kind of raw value: a list -> floats of its entries (all or nothing), a string that is no boolean '
+                'word -> float (or itself)', not why_k, key='; '.join(why_k), detail='; '.join(why_k), loc=f.loc())
+    if words is not None:
+      with R.guard('6.bool', 'ALG', site, 'typing'):
         t = [v for k, v in words.items() if 'true' in k]
         fa = [v for k, v in words.items() if 'false' in k]
         if t != [[True]]:
